@@ -125,6 +125,12 @@ def check(ctx, text, origin):
         except RecursionError:
             ctx.count('skipped:resource_limit')
             continue
+        except Exception as e:
+            ctx.hit('minify_print')
+            ctx.case((text, drop), False)
+            ctx.violation('C02:printer_raised:%s' % type(e).__name__, {'text': text, 'drop_semi': drop},
+                          'minifying raised %s: %s\ninput: %r\ndrop_semi=%s' % (type(e).__name__, str(e)[:200], text[:300], drop))
+            break
         outs[drop] = out
         ctx.hit('minify_print')
         ctx.hit('reparse')
